@@ -19,6 +19,7 @@ import (
 	"encoding/binary"
 	"encoding/gob"
 	"fmt"
+	"math"
 
 	"github.com/attestantio/dirk/rules"
 	"github.com/attestantio/dirk/util/verifhook"
@@ -75,6 +76,14 @@ func (s *Service) OnSignBeaconProposal(ctx context.Context, metadata *rules.ReqM
 	// The request must have the appropriate domain.
 	if !bytes.Equal(req.Domain[0:4], e2types.DomainBeaconProposer[:]) {
 		log.Warn().Msg("Not approving non-beacon proposal due to incorrect domain")
+
+		return rules.DENIED
+	}
+
+	// Slots are stored as signed 64-bit integers; a higher slot would wrap to a negative value,
+	// which is indistinguishable from "nothing signed yet", so cannot be protected.
+	if req.Slot > math.MaxInt64 {
+		log.Warn().Uint64("slot", req.Slot).Msg("Request slot too high to be protected")
 
 		return rules.DENIED
 	}
